@@ -53,6 +53,16 @@ func vC06check(m Map, safe bool, indent bool) {
 	vAssert(err == nil, "json: a Map of JSON types encodes without error")
 	var probe interface{}
 	vAssert(json.Unmarshal(b, &probe) == nil, "json: the output is valid JSON")
+	// agreement with encoding/json: HTML escaping on for the safe encoding, off for the default one
+	var ref bytes.Buffer
+	enc := json.NewEncoder(&ref)
+	enc.SetEscapeHTML(safe)
+	if indent {
+		enc.SetIndent("", " ")
+	}
+	vAssert(enc.Encode(map[string]interface{}(m)) == nil, "json: encoding/json encodes the Map")
+	want := ref.Bytes()
+	vAssert(len(want) == len(b)+1 && string(want[:len(b)]) == string(b), "json: the output is byte for byte what encoding/json produces (with <, > and & literal in the default encoding)")
 	if safe {
 		vAssert(!vContains(b, '<') && !vContains(b, '>') && !vContains(b, '&'), "json: the safe encoding never contains <, > or & literally")
 		vCover("safe")
